@@ -296,3 +296,17 @@ def rule_select_zmq(ctx: Ctx) -> RuleResult:
 
 def run(ctx: Ctx):
     return [rule_wrap(ctx), rule_snap(ctx), rule_idle_arming(ctx), rule_remove_returns(ctx), rule_select_zmq(ctx)]
+
+
+from ..mutants import Mut  # noqa: E402
+
+_S = "urwid/event_loop/select_loop.py"
+_A = "urwid/event_loop/asyncio_loop.py"
+MUTANTS = [
+    Mut("select-idle-live-dict", _S, "SelectEventLoop._entering_idle", "for callback in list(self._idle_callbacks.values()):", "for callback in self._idle_callbacks.values():", "SNAP|"),
+    Mut("select-remove-alarm-conditional-heapify", _S, "SelectEventLoop.remove_alarm", "            self._alarms.remove(handle)\n            heapq.heapify(self._alarms)\n", "            self._alarms.remove(handle)\n", "SIB|"),
+    Mut("asyncio-exc-not-cleared", _A, "AsyncioEventLoop.run", "            exc = self._exc\n            self._exc = None\n", "            exc = self._exc\n", ("ORDER|", "PASS|", "WRAP|")),
+    Mut("asyncio-idle-handle-not-reset", _A, "AsyncioEventLoop._exception_handler", "                self._idle_asyncio_handle.cancel()\n                self._idle_asyncio_handle = None", "                self._idle_asyncio_handle.cancel()", "PASS|"),
+    Mut("zmq-remove-idle-returns-none", "urwid/event_loop/zmq_loop.py", "ZMQEventLoop.remove_enter_idle", "        except KeyError:\n            return False\n\n        return True", "        except KeyError:\n            return False", "RET|"),
+    Mut("select-alarm-callback-no-idle-arming", _S, "SelectEventLoop._loop", "                alarm_callback()\n                self._did_something = True", "                alarm_callback()", ("PASS|", "ORDER|", "SIB|")),
+]
